@@ -2,7 +2,8 @@
 #
 #   tables          gen/Uri_gen.v regenerated from /repo on every run (lib/gentables.py; the dump program
 #                   includes harness/c20_describe.hpp for uri::dec_octet = maximum_rule< uint8_t >)
-#   proofs          coq/Properties_C20.v  (Regex.v RegexIncl.v Rfc3986.v UriModel.v UriProof.v)
+#   proofs          coq/Properties_C20.v  (Regex.v RegexIncl.v RegexQuot.v Rfc3986.v UriModel.v UriProof.v UriSound*.v
+#                   UriComplete.v UriCompleteV6.v)
 #   implementation  harness/c20_impl.cpp: the real parse< seq< uri::X, eof > >( memory_input ) on exact-size
 #                   buffers, X in URI, URI_reference, absolute_URI, IPv4address, IPv6address
 #   model           extracted UriModel.uri_verdict (engine model on the generated table)   -> ctx.diff
@@ -416,7 +417,8 @@ def run(ctx):
         "(compiler-side dump) plus the verdict correspondence on the explored inputs",
         "uri::dec_octet = maximum_rule< uint8_t > is interpreted by the C15 model Integer.maximum_rule (own correspondence check: C15)",
         "inputs are byte strings (every element < 256); RFC 3986 Appendix A is transcribed by hand into Rfc3986.v (ABNF literals case-insensitive per RFC 5234)",
-        "completeness is proved for IPv4address only; for IPv6address and the URI forms it rests on the oracle comparison (URI forms: refuted, recorded finding)",
+        "completeness (hence exactness) is proved for IPv4address and IPv6address; for the URI forms it is refuted (recorded finding) and, outside the "
+        "finding's class, rests on the oracle comparison",
     ]
     tables_ok = True
     try:
